@@ -166,6 +166,10 @@ func runPace(k paceCase) paceOutcome {
 	if k.Dev == "cardsec-key" || k.Dev2 == "cardsec-key" {
 		o.Personality = chipsim.PersonalityByName("cam-no-key")
 	}
+	if k.Dev == "ecad" && strings.HasPrefix(k.DevForm, "pad-") {
+		// the chip itself sends genuine chip authentication data under a malformed padding: an altered ECAD all the same
+		o.Personality.CAMPadding = strings.TrimPrefix(k.DevForm, "pad-")
+	}
 	var out paceOutcome
 	if k.ForceZero != "" {
 		o.ChooseScalar = func(phase string, curve elliptic.Curve, px, py *big.Int) *big.Int {
@@ -273,7 +277,11 @@ func runPace(k paceCase) paceOutcome {
 			if has("ecad-absent") && step == "token" {
 				g = drop7C(g, 0x8A)
 			}
-			if has("ecad") && step == "token" {
+			if has("ecad") && step == "token" && strings.HasPrefix(k.DevForm, "lastbyte:") {
+				var pos, x int
+				fmt.Sscanf(k.DevForm, "lastbyte:%d:%d", &pos, &x)
+				g = patch7C(g, 0x8A, func(v []byte) []byte { v[len(v)-16+pos] ^= byte(x); return v })
+			} else if has("ecad") && step == "token" && !strings.HasPrefix(k.DevForm, "pad-") {
 				g = patch7C(g, 0x8A, func(v []byte) []byte { v[rnd.Intn(len(v))] ^= 1 << uint(rnd.Intn(8)); return v })
 			}
 			return g
@@ -371,7 +379,7 @@ func C04(c *core.Ctx) {
 		}
 	}
 	// (2) deviations
-	forms := map[string][]string{"mapkey": {"otherpoint", "bitflip", "trunc", "empty", "infinity"}, "kakey": {"otherpoint", "bitflip", "trunc", "empty", "infinity"}}
+	forms := map[string][]string{"ecad": {"bitflip", "pad-marker-junk", "pad-marker-tail"}, "mapkey": {"otherpoint", "bitflip", "trunc", "empty", "infinity"}, "kakey": {"otherpoint", "bitflip", "trunc", "empty", "infinity"}}
 	di := 0
 	for _, rw := range rows {
 		if rw.dev == "none" {
@@ -402,6 +410,15 @@ func C04(c *core.Ctx) {
 			for k := 0; k < reps; k++ {
 				di++
 				add(paceCase{OID: oids[di%len(oids)], ParamID: ids[(di*7)%len(ids)], Password: []string{"mrz", "can"}[di%2], Dev: rw.dev, DevForm: f})
+			}
+		}
+	}
+	// "all single-value alterations": every single-octet alteration of the last ECAD block (pure padding on a 256-bit
+	// curve), thorough tier: one curve completely; quick: a seeded slice
+	for pos := 0; pos < 16; pos++ {
+		for x := 1; x < 256; x++ {
+			if c.Thorough() || (pos*255+x+int(c.Seed))%40 == 0 {
+				add(paceCase{OID: paceCamOIDs[(pos+x)%len(paceCamOIDs)], ParamID: []int{12, 13}[x%2], Password: "mrz", Dev: "ecad", DevForm: fmt.Sprintf("lastbyte:%d:%d", pos, x)})
 			}
 		}
 	}
